@@ -158,7 +158,7 @@ for (const op of ops) {
       } catch (e) {
         if (String(e && e.message) === 'TIMEOUT') { out({ ...base, event: 'ClientRet', seq: seq.n++, kind: 'timeout' }); continue; }
         if (m.ValidationError && e instanceof m.ValidationError) {
-          out({ ...base, event: 'ClientRet', seq: seq.n++, kind: 'validationError', viol: (e.violations || []).map((x) => [String(x.field), String(x.description)]) });
+          out({ ...base, event: 'ClientRet', seq: seq.n++, kind: 'validationError', viol: (Array.isArray(e.violations) ? e.violations : []).map((x) => [String(x && x.field), String(x && x.description)]), violIsArray: Array.isArray(e.violations) });
         } else if (m.ApiError && e instanceof m.ApiError) {
           out({ ...base, event: 'ClientRet', seq: seq.n++, kind: 'apiError', status: e.statusCode, message: String(e.message), body: String(e.body) });
         } else {
